@@ -77,6 +77,27 @@ func main() {
 			tier = "quick"
 		}
 		os.Exit(runCheck(id, tier, mutant))
+	case "checkall":
+		// developer aid (corpus regressions): all properties on one load of the program, rules only (no mutant
+		// controls); one line per property plus its non-ok obligations. The registered commands use `check`.
+		tier := "quick"
+		if len(os.Args) > 3 && os.Args[2] == "--tier" {
+			tier = os.Args[3]
+		}
+		ids := make([]string, 0, len(registry))
+		for id := range registry {
+			ids = append(ids, id)
+		}
+		sort.Strings(ids)
+		progs := NewProgs()
+		rc := 0
+		for _, id := range ids {
+			c := runProperty(registry[id], tier, progs)
+			if c.Finish() != 0 {
+				rc = 1
+			}
+		}
+		os.Exit(rc)
 	case "explain":
 		if len(os.Args) < 3 {
 			usage()
